@@ -72,6 +72,19 @@ type FuncContract struct {
 	Terminates map[string]bool
 	Defaults   string
 	Aliases    []string
+	Sites      []*SiteSpec
+	Stable     bool // (interface / extern methods) the single result is a function of the receiver identity only
+}
+
+// SiteSpec: an assumption or assertion attached to the n-th call (in source order) of a callee.
+//   callsite <callee>#<n> (<name type>, ...) assume <expr> "reason"
+//   callsite <callee>#<n> (<name type>, ...) assert <expr> :label
+type SiteSpec struct {
+	Callee string
+	N      int
+	Vars   []VarDecl // names for the call's results
+	Kind   string    // assume | assert
+	Clause *Clause
 }
 
 type GhostDecl struct {
@@ -96,6 +109,7 @@ type ContractFile struct {
 	Preds   []*PredDecl
 	Funcs   []*FuncContract
 	GoDecls []string
+	NonNilDynamic []string // interface types whose dynamic values are never typed-nil pointers (trusted data invariant)
 	PkgInvs []*Clause // invariants over package-level variables: established by init, never written afterwards
 	Consts  []*Clause // closed obligations over package-level constants
 	Lemmas  []*Clause
@@ -104,7 +118,7 @@ type ContractFile struct {
 var clauseKeywords = map[string]bool{
 	"property": true, "requires": true, "ensures": true, "modifies": true, "pure": true,
 	"safe": true, "loop": true, "assume": true, "trusted": true, "alloc_bound": true,
-	"holds": true, "spawned": true, "terminates": true, "alias": true,
+	"holds": true, "spawned": true, "terminates": true, "alias": true, "callsite": true, "stable": true,
 }
 
 var labelRe = regexp.MustCompile(`\s:([A-Za-z_][A-Za-z0-9_]*)\s*$`)
@@ -128,6 +142,7 @@ func ParseContractFile(path string) (*ContractFile, error) {
 	var cur *FuncContract
 	curProp := ""
 	var lastExpr *string // continuation target
+	lastIsGo := false
 	ln := 0
 	for sc.Scan() {
 		ln++
@@ -149,12 +164,22 @@ func ParseContractFile(path string) (*ContractFile, error) {
 		if b == "" {
 			continue
 		}
+		wasGo := lastIsGo
+		_ = wasGo
 		word := b
 		rest := ""
 		if i := strings.IndexAny(b, " \t"); i >= 0 {
 			word, rest = b[:i], strings.TrimSpace(b[i+1:])
 		}
+		if word != "go" && (clauseKeywords[word] || word == "import" || word == "ghost" || word == "pred" || word == "const" || word == "lemma" || word == "pkginv" || word == "func" || word == "extern" || word == "iface") {
+			// a "go" block continues until the next keyword line; "case"/"return"/"switch"/"}" lines are not keywords
+			lastIsGo = false
+		}
 		switch word {
+		case "nonnil-dynamic":
+			cf.NonNilDynamic = append(cf.NonNilDynamic, strings.Fields(rest)...)
+			lastExpr = nil
+			continue
 		case "import":
 			cf.Imports = append(cf.Imports, rest)
 			lastExpr = nil
@@ -184,6 +209,7 @@ func ParseContractFile(path string) (*ContractFile, error) {
 		case "go":
 			cf.GoDecls = append(cf.GoDecls, rest)
 			lastExpr = &cf.GoDecls[len(cf.GoDecls)-1]
+			lastIsGo = true
 			cur = nil
 			continue
 		case "const", "lemma", "pkginv":
@@ -240,7 +266,11 @@ func ParseContractFile(path string) (*ContractFile, error) {
 			if lastExpr == nil {
 				return nil, fmt.Errorf("%s:%d: unexpected contract line %q", path, ln, b)
 			}
-			*lastExpr = *lastExpr + " " + b
+			if lastIsGo {
+				*lastExpr = *lastExpr + "\n" + b
+			} else {
+				*lastExpr = *lastExpr + " " + b
+			}
 			continue
 		}
 		if word == "property" && cur == nil {
@@ -307,10 +337,53 @@ func ParseContractFile(path string) (*ContractFile, error) {
 			cur.AllocBound = rest
 		case "holds":
 			cur.Holds = append(cur.Holds, strings.Fields(rest)...)
+		case "stable":
+			cur.Stable = true
+			cur.HasMod = true
+			cur.Pure = true
 		case "spawned":
 			cur.Spawned = true
 		case "alias":
 			cur.Aliases = append(cur.Aliases, strings.Fields(rest)...)
+		case "callsite":
+			// <callee>#<n> (vars) assume|assert expr
+			i := strings.Index(rest, " ")
+			if i < 0 {
+				return nil, fmt.Errorf("%s:%d: bad callsite clause", path, ln)
+			}
+			head, tail := rest[:i], strings.TrimSpace(rest[i+1:])
+			h := strings.LastIndex(head, "#")
+			if h < 0 || !strings.HasPrefix(tail, "(") {
+				return nil, fmt.Errorf("%s:%d: bad callsite clause", path, ln)
+			}
+			n, err := strconv.Atoi(head[h+1:])
+			if err != nil {
+				return nil, fmt.Errorf("%s:%d: bad callsite ordinal", path, ln)
+			}
+			j := matchParen(tail, 0)
+			ss := &SiteSpec{Callee: head[:h], N: n}
+			for _, v := range splitTop(tail[1:j], ',') {
+				v = strings.TrimSpace(v)
+				if v == "" {
+					continue
+				}
+				k := strings.IndexAny(v, " \t")
+				ss.Vars = append(ss.Vars, VarDecl{v[:k], strings.TrimSpace(v[k+1:])})
+			}
+			body := strings.TrimSpace(tail[j+1:])
+			k := strings.Index(body, " ")
+			ss.Kind = body[:k]
+			e, lab := splitLabel(strings.TrimSpace(body[k+1:]))
+			reason := ""
+			if ss.Kind == "assume" {
+				if q := strings.Index(e, `"`); q >= 0 {
+					reason = strings.Trim(e[q:], `"`)
+					e = strings.TrimSpace(e[:q])
+				}
+			}
+			ss.Clause = &Clause{Kind: "site" + ss.Kind, Expr: e, Label: lab, Reason: reason, Property: curProp, Line: ln}
+			cur.Sites = append(cur.Sites, ss)
+			lastExpr = &ss.Clause.Expr
 		case "loop":
 			fs := strings.SplitN(rest, " ", 3)
 			if len(fs) < 2 {
